@@ -316,8 +316,9 @@ def r5_arity(ctx, sop, sc):
     known_eq = {eq(v): v for v in list(ops) + ['*+', '*^', '*v', '*-', '*x']}
     free_ok = {A_first, A_prev_join, A_same_hdr, A_surplus}
     forms = []
+    pos = f'0 < {col_p}'        # a column index is never negative: `col > 0` is `not (col == 0)`
     for sp, a, b in sc:
-        f = sp.condition()
+        f = G.map_atoms(sp.condition(), lambda a_: ('not', ('atom', A_first)) if a_ == pos else None)
         forms.append((sp, f, b))
     all_atoms = []
     for _, f, _ in forms:
